@@ -10,8 +10,9 @@ CHECKS = {
          "the set of deleted-and-absent keys) is emitted by TLC with a witness history, the reply S3!Step predicts and a "
          "spec-computed audit of the whole observable state, and replayed through the HTTP handler on mem, bolt, "
          "multi-fs (MemMapFs and a real directory) and the single-bucket backends, with and without auto-bucket.",
-         "TLC transition tours of spec/MC_Store.tla replayed into the real backends; design properties "
-         "(Frame, ReadYourWrite, RejectedUnchanged) checked as action properties on the model",
+         "TLC transition tours of spec/MC_Store.tla replayed into the real backends through HTTP and through the "
+         "Backend Go API; design properties (Frame, ReadYourWrite, RejectedUnchanged) checked as action properties on the "
+         "model; state traces recorded inside s3mem while the repository's own tests run, validated by TLC (TraceMem.tla)",
          "S3!Step (spec/S3.tla) is the oracle; trusted: the harness's request builder, XML/headers projection and hashing; "
          "bodies sampled per size class"),
  "C03": ("model_checking",
@@ -33,7 +34,9 @@ CHECKS = {
          "mutating ones; thorough: 3 with all, 2 keys) incl. status changes, version deletes, multi-delete with versions, "
          "reads by id, is replayed on s3mem through HTTP; after each mutating step all versions are re-read by id and the "
          "version listing is audited. NeverLost/FreshVid/UniqueVids hold on the model.",
-         "TLC transition tours of the versioned store model replayed into s3mem; NeverLost, FreshVid action properties",
+         "TLC transition tours of the versioned store model replayed into s3mem (HTTP and VersionedBackend Go API); "
+         "NeverLost, FreshVid action properties; s3mem state traces (hooks under the backend lock) of the repository's "
+         "tests and of random version histories validated by TLC (TraceMem.tla)",
          "ids of null/hidden versions are never addressed; don't-care regions resolved to the code's choice for generation"),
  "C06": ("model_checking",
          "Every transition of the multipart model (1 key, 2 concurrent uploads, parts {1,2} re-uploadable with 2 bodies, "
@@ -122,8 +125,11 @@ CHECKS = {
          "real directories, ordered by one atomic counter. TLC (spec/TraceConc.tla) searches for a linearization: silent Lin "
          "steps apply S3!Step, copy is two steps, every reply (body identity, ETag, length, version id, listing ETags) must "
          "match, and the quiescent final state must equal the model's (no lost update). Histories of <=4 clients are decided "
-         "exactly (breadth-first); larger ones by first-witness search under the Go race detector.",
-         "trace validation with linearization search by TLC; race/deadlock clause observed (Go race detector, deadlines)",
+         "exactly (breadth-first); larger ones by first-witness search under the Go race detector; 12-16-client histories of "
+         "single-key operations key by key (locality). A sweep re-uploads a part while a completion is under way. On s3mem the "
+         "same runs are decided a second time, search-free, from state traces recorded under the backend's lock (TraceMem.tla).",
+         "trace validation with linearization search by TLC (TraceConc.tla) + state-trace refinement check (TraceMem.tla); "
+         "race/deadlock clause observed (Go race detector, deadlines)",
          "data races and deadlocks are observations made while recording, not model-checked; schedules are those the Go "
          "scheduler and the gates produce, not all interleavings"),
  "C09": ("model_checking",
